@@ -266,3 +266,8 @@ impl NormalizingHasher {
         }
     }
 }
+
+// verification hook (add-only, inert unless built by `cargo kani`, which sets --cfg kani)
+#[cfg(kani)]
+#[path = "/verif/kani/util_harness.rs"]
+mod verif_kani;
